@@ -273,7 +273,9 @@ def run_placements(c, res):
     xe, ye = [0.0, 1.0, 2.0, 3.0], [0.0, 2.0, 4.0]
     bases = [[[2, 1], [1, 3], [0, 2]], [[1, 1], [1, 1], [1, 1]], [[3, 0], [0, 0], [0, 3]]]
     specials = [(0.0, 1.0), (1.0, 1.0), (3.0, 1.0), (1.5, 4.0), (3.0, 4.0), (-0.001, 1.0), (3.001, 1.0), (1.5, -0.5), (1.5, 4.5),
-                (2.0, 2.0), (0.0, 0.0), (float('inf'), 1.0), (-5.0, 9.0)]
+                (2.0, 2.0), (0.0, 0.0), (float('inf'), 1.0), (-5.0, 9.0),
+                # a hair outside / inside the outermost edges (outside is outside, however close)
+                (3.0000001, 1.0), (float(np.nextafter(3.0, 4.0)), 3.0), (1.5, 4.00000001), (-1e-12, 1.0), (2.9999999, float(np.nextafter(4.0, 0.0)))]
     for counts in bases:
         ev0 = events_from_counts(counts, xe, ye)
         n = len(ev0)
